@@ -194,6 +194,7 @@ Resolves(a) == a \in {"Om", "Om2", "Dep", "Prev", "Blot", "Hash", "Cust", "CustK
 AnnFits(site, ty, a1, a2) ==
     LET as == IF a2 = "none" THEN {a1} ELSE {a1, a2} IN
     IF \E a \in as : ~Resolves(a) THEN "rej"                     \* the annotation must exist (in an imported namespace) and be an annotation
+    ELSE IF a1 = a2 THEN "unspec"                                \* the same annotation written twice: the documents are silent
     ELSE IF {"Om", "Om2"} \subseteq as \/ {"Om", "nsb.Fo"} \subseteq as \/ {"Om2", "nsb.Fo"} \subseteq as
          THEN "rej"                                               \* "fields can be tagged with at most one caller type"
     ELSE IF \E a \in as : IsRedactor(a) THEN
